@@ -4,11 +4,12 @@ import json
 from harness import hcommon, srcprops, transfer
 
 PROP = "C08"
+EXTRA_PROPS = ("C08b",)     # transparency: after answering a NAK the sender continues exactly as if it had never arrived
 
 
 def run(tier, seed):
     hc = hcommon.HandlerCheck(PROP, tier, seed)
-    hc.gate()
+    hc.gate(EXTRA_PROPS)
     hc.run_corpus(lambda kind: srcprops.oracle_c08)
     for case in hcommon.share(srcprops.c08_cases(tier, hc.rng)):
         if case[0] == "multi":
